@@ -14,10 +14,10 @@ def spec(tier):
                  what="edit on a preprocessed (.F90) file after preprocess(): macro-expanded copy differs from the client's text")
     if not q:
         obs += parts("E3.edit2", F, "edit2", 16, 2400, what="two chained ranged edits (second range valid in the intermediate document)")
-        obs += parts("E5.on_change", F, "on_change", 16, 2400, what="serve_onChange with two contentChanges (incremental) / one (full sync)")
+        obs += parts("E5.on_change", F, "on_change", 16, 2400, what="serve_onChange with two contentChanges (incremental) / one or two whole-document texts (full sync)")
     else:
-        obs += parts("E5.on_change", F, "on_change", 12, 200,
-                     what="serve_onChange with two contentChanges (incremental) / one (full sync)")
+        obs += parts("E5.on_change", F, "on_change", 16, 280,
+                     what="serve_onChange with two contentChanges (incremental) / two whole-document texts (full sync)")
     obs += [XH("R.reopen", F, "reopen", 250 if tier == "quick" else 900, path_timeout=120,
                what="didOpen, 1-2 unsaved single-line ranged edits at symbolic positions, [didClose,] didOpen again with the file on disk unchanged: the server's text and outline are those of the disk text again (real handlers over the in-memory disk)")]
     return dict(
